@@ -11,12 +11,13 @@ package http_api
 //@ fn mArg(rp *ReqParams, name string) string := rp.Values[name][0]
 //@ ghost mRP *ReqParams
 //@ ghost mRPErr error
+//@ ghostgroup mRP, mRPErr
 
 // Server side of net/http: the request, its URL and its Body are never nil (documented for server requests).
 //@ pred mServerReq(req *http.Request) := req != nil && req.URL != nil && req.Body != nil
 
 //@ func NewReqParams(req *http.Request) (*ReqParams, error)
-//@   props C15 C14
+//@   props C15 C14 C06
 //@   requires[server-request] mServerReq(req)
 //@   ensures[ok] result1 == nil ==> mParamsOK(result0) && fresh(result0)
 //@   ensures[failed] result1 != nil ==> result0 == nil
@@ -26,7 +27,7 @@ package http_api
 //@   nochan
 
 //@ func (r *ReqParams) Get(key string) (string, error)
-//@   props C15 C14
+//@   props C15 C14 C06
 //@   requires[parsed] mParamsOK(r)
 //@   ensures[present] has(r.Values, key) ==> result1 == nil && result0 == r.Values[key][0]
 //@   ensures[absent] !has(r.Values, key) ==> result1 != nil && result0 == ""
@@ -43,7 +44,7 @@ package http_api
 
 // Both names present and valid, or an error (whose text names the first problem); never touches the registry.
 //@ func GetTopicChannelArgs(rp getter) (string, string, error)
-//@   props C15 C14
+//@   props C15 C14 C06
 //@   requires[params] dyntype(rp) == typetag("*ReqParams") && mParamsOK(unbox(rp, "*ReqParams"))
 //@   ensures[ok] result2 == nil <==> (mHasArg(unbox(rp, "*ReqParams"), "topic") && protocol.validName(mArg(unbox(rp, "*ReqParams"), "topic")) &&
 //@        mHasArg(unbox(rp, "*ReqParams"), "channel") && protocol.validName(mArg(unbox(rp, "*ReqParams"), "channel")))
